@@ -2,6 +2,7 @@ import Ubx.Proofs.ParseTotal
 import Ubx.Proofs.Frames
 import Ubx.Proofs.Consume
 import Ubx.Proofs.Parse
+import Ubx.Proofs.StrTotal
 import Ubx.Generated.Tables
 /-!
 # C08 — no input makes parsing or reading fail with a foreign exception or hang
@@ -114,6 +115,33 @@ theorem C08_reader_terminates {α : Type} (nmeaHdr : Byte → Bool) (cfg : RCfg)
   apply run_ends fileSrc (fun x => x) file_linear
   · intro s' hs'; cases hs'; omega
   · omega
+
+
+/-! ### inspection: `str` -/
+
+theorem gen_str_safe : (allDefs Gen.ctx).all (fun e => strSafeL e.2.2) = true := by decide +kernel
+
+theorem gen_cfg_names_ok : cfgNamesOK Gen.ctx = true := by decide +kernel
+
+theorem gen_str : StrHyp Gen.ctx := ⟨gen_selectors_known, gen_str_safe, gen_cfg_names_ok⟩
+
+/-- **C08, "every message it returns can be inspected (str …) without raising"**: on the shipped tables, whatever the
+    input bytes, mode, validation and bitfield setting, the message `parse` returns renders with `str()` without an
+    exception: every attribute `__str__` converts by name (`iTOW` through `itow2utc`; `clsID`/`msgClass`/`msgID` through
+    `val2bytes(·, U1)` for ACK-* and CFG-MSG) holds an integer inside the converter's domain -/
+theorem C08_str_total (mm v : Nat) (bf : Bool) (bs : Bytes) (m : Msg) (h : parse Gen.ctx mm v bf bs = .ok m) :
+    m.strExc = none := parse_str_total Gen.ctx gen_str mm v bf bs m h
+
+/-- non-vacuity: a NAV-PVT-like iTOW carrier (NAV-CLOCK, 20 bytes) and an ACK-ACK are parsed and rendered -/
+example : (match parse Gen.ctx 0 0 true ([0xb5, 0x62, 0x05, 0x01, 0x02, 0x00, 0x13, 0x99, 0, 0]) with
+    | .ok m => m.strExc == none && m.env.length == 2 | .error _ => false) = true := by decide +kernel
+example : (match parse Gen.ctx 0 0 true ([0xb5, 0x62, 0x01, 0x22, 20, 0] ++ List.replicate 20 0xff ++ [0, 0]) with
+    | .ok m => m.strExc == none && m.env.length == 5 | .error _ => false) = true := by decide +kernel
+
+/-- the hypothesis matters: a definition whose `iTOW` is a float (or whose `msgID` is two bytes wide) is refused by the
+    table check, and there `str` does raise (NaN) -/
+example : strSafeL [.attr N.aITOW (.t cR 8) .one] = false := by decide
+example : strLoop false [(⟨N.aITOW, []⟩, .float 0x7FF8000000000000)] false = some .valueE := by decide +kernel
 
 /-- returned messages can be re-created from their `repr` (default bitfield setting), see C01 -/
 theorem C08_repr_total (mm v : Nat) (c i : Byte) (p : Bytes) (hp : p.length < 65536) (m : Msg)
